@@ -130,8 +130,64 @@ def address_map_part(rep):
     return n
 
 
+def job_table(j):
+    """Whole tables decoded in ONE process, every register holding the same word (so that different sensors see
+    identical bytes), sensors taken in table order and in reverse order: a value must depend on nothing but the
+    sensor's own registers - in particular not on what another sensor decoded before it."""
+    ti, seed = j
+    world.reset()
+    t = all_tables()[ti]
+    if t.mode == 'modbus' and t.nbytes > 250:
+        # settings tables are read one sensor at a time: give every sensor its own window with the same content
+        wins = [(s, Table(t.family, t.name, [s], 'modbus', start=s.offset, length=refdec.size_of(s) + refdec.size_of(s) % 2))
+                for s in t.sensors if own_span(s)]
+    else:
+        wins = None
+    words = [0x0000, 0x0001, 0x0040, 0x0100, 0x1234, 0x7FFF, 0x8000, 0x8001, 0xFFFE, 0x0303, 0x0040, 0x0001,
+             (seed * 2654435761 >> 7) & 0xFFFF, 0x0B0B, 0x173B, 0x00FF, 0x0601, 0x0017]
+    n = 0
+    out = {}
+    for order in ('forward', 'reverse', 'forward'):
+        for w in words:
+            pat = bytes([w >> 8, w & 0xFF])
+            if wins is None:
+                resp = t.response(pat * (t.nbytes // 2) + pat[:t.nbytes % 2])
+                pairs = [(s, t, resp) for s in t.sensors if own_span(s)]
+            else:
+                pairs = [(s, tab, tab.response(pat * (tab.nbytes // 2))) for s, tab in wins]
+            if order == 'reverse':
+                pairs = pairs[::-1]
+            for s, tab, resp in pairs:
+                pos = tab.byte_pos(s)
+                nb = refdec.size_of(s)
+                own = (pat * (tab.nbytes // 2 + 2))[pos % 2: pos % 2 + nb] if tab.mode != 'modbus' else (pat * 8)[:nb]
+                if tab.mode != 'modbus':
+                    own = bytes(resp.response_data()[pos:pos + nb])
+                got = read_outcome(s, resp)
+                ref = refdec.decode(s, own) if len(own) == nb else None
+                n += 1
+                if len(own) != nb:
+                    continue
+                d = compare(s, got, ref)
+                if d:
+                    key = f'own-registers-only/{t.family}/{tname(s)}'
+                    out.setdefault(key, []).append(dict(key=key, clause='value depends on other sensors / earlier reads',
+                                                        replay=dict(table=[t.family, t.name], sensor=s.id_, placement='uniform',
+                                                                    own=own.hex()),
+                                                        detail=dict(sensor=s.id_, word=hex(w), order=order, diff=d)))
+    res = []
+    for key, lst in out.items():
+        lst[0]['n'] = len(lst)
+        res.append(lst[0])
+    return n, res
+
+
 def run(tier, seed, rep):
     nmap = address_map_part(rep)
+    ntab = 0
+    for n, res in pmap(job_table, [(i, seed) for i in range(len(all_tables()))]):
+        ntab += n
+        rep.add_many(res)
     tabs, jobs = sensor_jobs(tier, seed)
     jobs = [j + (seed,) for j in jobs]
     total = nontriv = 0
@@ -143,7 +199,7 @@ def run(tier, seed, rep):
         rep.add_many(res)
         per_type[info[3]] = per_type.get(info[3], 0) + 1
         nfull += bool(info[4])
-    cov = dict(evaluations=total + nmap, distinct_nontrivial=nontriv, register_map_entries_compared=nmap,
+    cov = dict(evaluations=total + nmap + ntab, uniform_table_evaluations=ntab, distinct_nontrivial=nontriv, register_map_entries_compared=nmap,
                rule='for every sensor with own registers of every table of ET, DT, ES: own-register contents '
                     '(all 65536 values of 2-byte fields and of each half of 4-byte fields, all 256 values of 1-byte fields '
                     'x other half, per-byte and per-word exhaustive for 6/8/12-byte groups over valid baselines) embedded '
